@@ -167,6 +167,8 @@ type LFSServer struct {
 	// HrefOrigin picks the origin of an action href (default StorageOrigin
 	// for transfers, APIOrigin for verify).
 	HrefOrigin func(rel, oid string) string
+	// OfferExtraHeaders: actions carry additional headers (C18).
+	OfferExtraHeaders bool
 	// Authenticated sets "authenticated": true on batch objects.
 	Authenticated bool
 
@@ -316,6 +318,30 @@ func (s *LFSServer) newOffer(rel, oid string, size int64, batchSeq int, expired,
 	if s.ActionAuth != nil {
 		if a := s.ActionAuth(rel, oid); a != "" {
 			o.Header["Authorization"] = a
+		}
+	}
+	if s.OfferExtraHeaders {
+		// headers the client also sets itself, offered under a spelling of
+		// the server's choosing: the request must carry exactly this value
+		hk := "batch/" + oid
+		spell := func(name string) string {
+			switch s.C.Choose(hk, 3, "header-spelling") {
+			case 1:
+				return strings.ToLower(name)
+			case 2:
+				return strings.ToUpper(name)
+			}
+			return name
+		}
+		switch rel {
+		case "upload":
+			if s.C.Choose(hk, 2, "offer-content-type") == 1 {
+				o.Header[spell("Content-Type")] = "application/x-sim-offered"
+			}
+		case "download", "verify":
+			if s.C.Choose(hk, 3, "offer-extra") == 1 {
+				o.Header[spell("X-Sim-Extra")] = "offered-" + tok
+			}
 		}
 	}
 	act := &BatchAct{Href: o.Href, Header: o.Header}
@@ -559,8 +585,15 @@ func (s *LFSServer) findOffer(rec *ReqRec, rel, oid string) *Offer {
 		s.Problems = append(s.Problems, fmt.Sprintf("req#%d %s %s: action %s was offered with href %s", rec.Seq, rec.Method, rec.URL, tok, o.Href))
 	}
 	for k, v := range o.Header {
-		if rec.Header.Get(k) != v {
-			s.Problems = append(s.Problems, fmt.Sprintf("req#%d %s %s: header %s offered with the action is missing or altered", rec.Seq, rec.Method, rec.URL, k))
+		// every value the request carries under this header name, whatever the spelling
+		var vals []string
+		for hk, hv := range rec.Header {
+			if strings.EqualFold(hk, k) {
+				vals = append(vals, hv...)
+			}
+		}
+		if len(vals) != 1 || vals[0] != v {
+			s.Problems = append(s.Problems, fmt.Sprintf("req#%d %s %s: the action offered header %s: %s, the request carries %q under that name", rec.Seq, rec.Method, rec.URL, k, v, vals))
 		}
 	}
 	return o
